@@ -407,3 +407,10 @@ Proof. reflexivity. Qed.
 
 Lemma eml_filter_addrs l : Forall (fun t => C03.Lib.nonempty (snd t) = true) (eml_filter l).
 Proof. unfold eml_filter. apply Forall_forall. intros x Hx. apply filter_In in Hx as [_ H]. exact H. Qed.
+
+Lemma eml_attachments_count T recs :
+  List.length (eml_attachments T recs) = List.length recs /\
+  forall i a, nth_error recs i = Some a -> nth_error (eml_attachments T recs) i = Some (eml_attachment T a).
+Proof.
+  unfold eml_attachments. split; [apply map_length|]. intros i a H. apply map_nth_error. exact H.
+Qed.
